@@ -60,8 +60,11 @@ type impTarget struct {
 	// receiver returns its results only; a slice result for which some return gives the literal nil is an Option
 	pre map[string][]string // unexported function -> pointer paths (receiver paths / parameter names) that must be non-nil at entry:
 	// assumed inside the function, CHECKED at every call site; every caller in the package must be a translated function
+	mode   string     // "h2f": Hash / SetBigInt of a field package (imp_h2f.go): parameters zeroF / setBigIntF / ExpandMsgXmd instead of mul / one / inv
 	grp    string     // name of a point type treated as an ABSTRACT group element type G with operations add / dbl / neg / zero (imp_grp.go)
 	inf    string     // name of the package-level variable holding the point at infinity (read as `zero`)
+	ext    bool       // extended parameter set (JointScalarMultiplication / mulGLV): fromAffine, phi, split, limbs, frBits, elBitLen
+	aff    string     // name of the affine point type (abstract type A, only converted by FromAffine)
 	digest bool       // the MiMC digest state machine (imp_digest.go): struct over the abstract element type, field primitives / codecs as parameters
 	guards []impGuard // accepted alternative layout: exported function = panic guard around an unexported body
 }
@@ -158,7 +161,12 @@ type impPkg struct {
 	grpTranslated map[string]*impSig // methods of the point type translated so far (receiver by value, result = new receiver)
 	translated    map[string]*impSig // pure package-local functions translated so far (callable from later ones)
 	file          *ast.File
-	digMethods    map[string]*impSig  // digest mode: methods of the receiver struct translated so far (receiver passed and returned by value)
+	digMethods    map[string]*impSig // digest mode: methods of the receiver struct translated so far (receiver passed and returned by value)
+	consts        map[string]string  // package-level integer constants `Name = literal` (mode h2f)
+	constsUsed    []string
+	modulus       string              // mode h2f: the literal of `_modulus.SetString("…", 16)` in init(), as a Lean hexadecimal numeral
+	imports       map[string]string   // local package name -> import path
+	elemMeth      map[string]*impSig  // methods `func (z *Element) M(…) *Element` of this target translated so far (callable as X.M(…))
 	usesReader    bool                // some translated function has an io.Reader parameter
 	listNext      map[string]string   // struct S with a field `next *S`: name of that field (S is the node type of a singly linked list)
 	recvMeths     map[string]*impMeth // methods translated so far (callable on the receiver from later ones; targets with methodCalls)
@@ -225,6 +233,10 @@ func (p *impPkg) goType(e ast.Expr) *ity {
 			return tyByte
 		case "error":
 			return tyErr
+		case "int64": // mode h2f only: an Int in [-2^63, 2^63), every operation wraps explicitly
+			if p.tg.mode == "h2f" {
+				return &ity{k: "int64"}
+			}
 		}
 		if _, ok := p.structs[v.Name]; ok {
 			return &ity{k: "struct", name: v.Name}
@@ -234,6 +246,9 @@ func (p *impPkg) goType(e ast.Expr) *ity {
 		}
 		if p.tg.grp != "" && v.Name == p.tg.grp {
 			return &ity{k: "grp"}
+		}
+		if p.tg.aff != "" && v.Name == p.tg.aff {
+			return &ity{k: "aff"}
 		}
 	case *ast.SelectorExpr:
 		if id, ok := v.X.(*ast.Ident); ok && p.tg.digest && id.Name == "fr" && v.Sel.Name == "Element" {
@@ -252,6 +267,9 @@ func (p *impPkg) goType(e ast.Expr) *ity {
 		}
 		if id, ok := v.X.(*ast.Ident); ok && id.Name == "big" && v.Sel.Name == "Int" {
 			return &ity{k: "bigint"}
+		}
+		if id, ok := v.X.(*ast.Ident); ok && id.Name == "fr" && v.Sel.Name == "Element" && p.tg.ext {
+			return &ity{k: "frel"} // the raw words of an fr.Element ([Limbs]uint64) as a list of naturals
 		}
 		if id, ok := v.X.(*ast.Ident); ok && id.Name == "sync" && v.Sel.Name == "WaitGroup" {
 			return &ity{k: "waitgroup"}
@@ -281,7 +299,7 @@ func (p *impPkg) goType(e ast.Expr) *ity {
 		}
 		if n := litInt(v.Len); n != nil && p.tg.grp != "" && n.IsInt64() && n.Int64() > 0 && n.Int64() < 1024 {
 			// fixed-size array of group elements: a list of that length (a value; element writes are value updates)
-			if t := p.goType(v.Elt); t.k == "grp" {
+			if t := p.goType(v.Elt); t.k == "grp" || t.k == "frel" {
 				return &ity{k: "array", n: int(n.Int64()), elem: t}
 			}
 		}
@@ -294,7 +312,7 @@ func (p *impPkg) goType(e ast.Expr) *ity {
 			// pointer to a list node: the VALUE is the chain of nodes reachable through `next` (nil = []); sound because nodes are
 			// immutable once shared (field writes only to a node that is fresh and referenced by one path, checked)
 			return &ity{k: "lptr", elem: t}
-		} else if t.k == "struct" || t.k == "elem" || t.k == "grp" {
+		} else if t.k == "struct" || t.k == "elem" || t.k == "grp" || t.k == "aff" {
 			return &ity{k: "ptr", elem: t}
 		} else if t.k == "bigint" { // *big.Int is read as an exact integer VALUE (mutating methods only on fresh objects)
 			return t
@@ -321,9 +339,15 @@ func (p *impPkg) lty(t *ity, qual bool) string {
 		return "F"
 	case "grp":
 		return "G"
+	case "aff":
+		return "A"
+	case "frel":
+		return "List Nat"
+	case "bigpair":
+		return "Int × Int"
 	case "array":
 		return "List " + p.ltyA(t.elem, qual)
-	case "bigint":
+	case "bigint", "int64":
 		return "Int"
 	case "bool":
 		return "Bool"
@@ -375,7 +399,7 @@ func (p *impPkg) ltyA(t *ity, qual bool) string {
 
 func (p *impPkg) zero(t *ity) string {
 	switch t.k {
-	case "int", "byte", "uint64":
+	case "int", "byte", "uint64", "int64":
 		return "0"
 	case "bool":
 		return "false"
@@ -407,6 +431,8 @@ func (p *impPkg) zero(t *ity) string {
 		return "{}"
 	case "grp":
 		return "uninit"
+	case "frel":
+		return "(List.replicate limbs.toNat 0)"
 	case "array":
 		return fmt.Sprintf("List.replicate %d %s", t.n, p.zero(t.elem))
 	case "bigint":
@@ -423,10 +449,14 @@ func (p *impPkg) zero(t *ity) string {
 
 func loadImp(tg impTarget) *impPkg {
 	p := &impPkg{tg: tg, fset: token.NewFileSet(), structs: map[string][]impField{}, errVars: map[string]string{}, funcs: map[string]*ast.FuncDecl{}, methods: map[string]*ast.FuncDecl{}, absDecl: map[string]*ast.FuncDecl{}, translated: map[string]*impSig{}, grpTranslated: map[string]*impSig{}, digMethods: map[string]*impSig{},
-		listNext: map[string]string{}, recvMeths: map[string]*impMeth{}, callers: map[string][]string{}}
+		listNext: map[string]string{}, recvMeths: map[string]*impMeth{}, callers: map[string][]string{},
+		consts: map[string]string{}, imports: map[string]string{}, elemMeth: map[string]*impSig{}}
 	f, err := parser.ParseFile(p.fset, filepath.Join(repo, tg.dir, tg.file), nil, parser.ParseComments)
 	if err != nil {
 		die("imp: parse: %v", err)
+	}
+	if tg.mode == "h2f" {
+		p.loadH2F(f)
 	}
 	p.file = f
 	// pass 1: struct names (so that field types can refer to structs declared later)
@@ -712,6 +742,9 @@ func (p *impPkg) translateFunc(name string) string {
 	if fd == nil || fd.Body == nil {
 		die("imp: %s/%s: function %s not found", p.tg.dir, p.tg.file, name)
 	}
+	if p.tg.grp != "" {
+		renameShadowing(fd)
+	}
 	f := &impFn{p: p, fd: fd, name: name, nonNil: map[string]bool{}}
 	f.push()
 	var params []string
@@ -729,7 +762,7 @@ func (p *impPkg) translateFunc(name string) string {
 		params = append(params, "("+lname(f.recv)+" : "+p.lty(t, false)+")")
 	}
 	for _, fl := range fd.Type.Params.List {
-		if _, ok := fl.Type.(*ast.StarExpr); ok && p.goType(fl.Type).k != "bigint" && p.goType(fl.Type).k != "lptr" && !(p.goType(fl.Type).k == "ptr" && p.goType(fl.Type).elem.k == "grp") {
+		if _, ok := fl.Type.(*ast.StarExpr); ok && p.goType(fl.Type).k != "bigint" && p.goType(fl.Type).k != "lptr" && !(p.goType(fl.Type).k == "ptr" && (p.goType(fl.Type).elem.k == "grp" || p.goType(fl.Type).elem.k == "aff")) {
 			p.die(fl, "pointer parameter (outside the subset: only the receiver is passed by reference)")
 		}
 		t0 := p.paramType(fl.Type)
@@ -769,6 +802,11 @@ func (p *impPkg) translateFunc(name string) string {
 				}
 				continue
 			}
+			if _, isPtr := fl.Type.(*ast.StarExpr); isPtr && p.tg.mode == "h2f" && f.recvTy != nil && f.recvTy.k == "elem" && len(fd.Type.Results.List) == 2 {
+				// `func (z *Element) M(…) (*Element, error)`: the returned pointer is z or nil: Option F
+				f.results = append(f.results, p.goType(fl.Type))
+				continue
+			}
 			f.results = append(f.results, p.paramType(fl.Type))
 		}
 	}
@@ -803,6 +841,15 @@ func (p *impPkg) translateFunc(name string) string {
 		// `func (z *Element) M(…) *Element`: the methods of the element type return their receiver; the def returns the new value of z
 		f.retSelf = true
 		f.results = nil
+		if p.tg.mode == "h2f" {
+			sig := &impSig{}
+			for _, fl := range fd.Type.Params.List {
+				for range fl.Names {
+					sig.params = append(sig.params, p.paramType(fl.Type))
+				}
+			}
+			defer func() { p.elemMeth[name] = sig }()
+		}
 	}
 	if f.recv != "" && !f.evRecv && f.recvTy.k == "struct" && p.tg.methodCalls {
 		// a method that never assigns its receiver (nor calls a method that does) returns its results only
@@ -940,6 +987,11 @@ func impPassOf(out string) string {
 	if strings.HasSuffix(b, "All") && len(b) > 3 {
 		return b[:len(b)-3]
 	}
+	for _, fam := range grpFamilies {
+		if strings.HasPrefix(b, fam.name+"_") || b == fam.name+"All" {
+			return fam.name
+		}
+	}
 	return b
 }
 
@@ -956,10 +1008,16 @@ func impPasses() []string {
 	for _, fam := range grpFamilies {
 		res = append(res, fam.name)
 	}
-	return res
+	return append(res, "H2F", "Set", "KzgOpen") // imp_h2f.go; impkzg.go: Gen/Imp/KzgOpen_<curve>.lean
 }
 
 func runImp() {
+	if impOnly == "" || impOnly == "KzgOpen" {
+		runKzgOpen() // impkzg.go
+		if impOnly != "" {
+			return
+		}
+	}
 	// Element.Exp of every field package (template-generated: the texts must be identical up to the package name, which the
 	// generated `rfl` lemmas of Gen/Imp/ExpAll.lean check)
 	targets := append([]impTarget{}, impTargets...)
@@ -972,6 +1030,29 @@ func runImp() {
 		}
 		targets = append(targets, impTarget{dir: d, file: "element.go", ns: "Exp_" + n, out: "Imp/Exp_" + n + ".lean", funcs: []string{"Exp"}, elem: "Element"})
 	}
+	// Hash (hash_to_field) and SetBigInt of every field package (imp_h2f.go)
+	for _, d := range fieldDirs {
+		n := leanName(d)
+		targets = append(targets, impTarget{dir: d, file: "element.go", ns: "H2F_" + n, out: "Imp/H2F_" + n + ".lean", funcs: []string{"SetBigInt", "Hash"}, elem: "Element", mode: "h2f"})
+	}
+	targets = append(targets, impTarget{dir: "ecc/bn254/fr", file: "element.go", ns: "H2F_generic", out: "Imp/H2F_generic.lean", funcs: []string{"SetBigInt", "Hash"}, elem: "Element", mode: "h2f"})
+	// the lenient setters SetBigInt / SetString / SetInt64 of every field package (C08; a pass of its own: Gen/Imp/Set_<pkg>.lean)
+	setFuncs := []string{"SetBigInt", "SetString", "SetInt64"}
+	for _, d := range fieldDirs {
+		n := leanName(d)
+		targets = append(targets, impTarget{dir: d, file: "element.go", ns: "Set_" + n, out: "Imp/Set_" + n + ".lean", funcs: setFuncs, elem: "Element", mode: "h2f"})
+	}
+	targets = append(targets, impTarget{dir: "ecc/bn254/fr", file: "element.go", ns: "Set_generic", out: "Imp/Set_generic.lean", funcs: setFuncs, elem: "Element", mode: "h2f"})
+	defer func() {
+		if impOnly == "" || impOnly == "Set" {
+			writeSetAll(expNames)
+		}
+	}()
+	defer func() {
+		if impOnly == "" || impOnly == "H2F" {
+			writeH2FAll(expNames)
+		}
+	}()
 	targets = append(targets, digestTargets()...)
 	defer func() {
 		if impOnly == "" || impOnly == "Mimc" {
@@ -1022,12 +1103,17 @@ func runImp() {
 			continue
 		}
 		impAbsParams, impAbsArgs = "", ""
+		h2fGeneric = strings.HasSuffix(tg.ns, "_generic")
 		impExtraReserved = nil
 		if tg.grp != "" {
 			impAbsParams, impAbsArgs = grpAbsParams, grpAbsArgs
 			impExtraReserved = grpReserved
+			if tg.ext {
+				impAbsParams, impAbsArgs = grpExtParams, grpExtArgs
+				impExtraReserved = grpExtReserved
+			}
 		}
-		if tg.elem != "" {
+		if tg.elem != "" && tg.mode == "" {
 			impAbsParams, impAbsArgs = " {F : Type} (mul : F → F → F) (one : F) (inv : F → F)", " mul one inv"
 		}
 		if tg.digest {
@@ -1104,20 +1190,29 @@ func runImp() {
 				}
 			}
 		}
-		var fb strings.Builder
+		var bodies strings.Builder
 		for _, fn := range tg.funcs {
-			fb.WriteString(p.translateFunc(fn))
+			if tg.mode == "h2f" {
+				impAbsParams, impAbsArgs = h2fParams(fn)
+			}
+			bodies.WriteString(p.translateFunc(fn))
+		}
+		if tg.mode == "h2f" {
+			b.WriteString(p.h2fHeader())
 		}
 		if p.usesReader {
 			b.WriteString("/-- `n, err := io.ReadFull(r, buf)` for a reader that is a FINITE BYTE STREAM WHICH NEVER FAILS (a bytes.Reader; a reader that returns\nother errors or blocks is outside the model): `r` is the part of the stream not yet read; result = (rest of the stream, contents of\nbuf afterwards, n, err).  An empty buffer reads nothing and succeeds; at the end of the stream io.EOF; fewer bytes left than the\nbuffer holds: they are read and the error is io.ErrUnexpectedEOF. -/\n")
 			b.WriteString("def readFull (r : Bytes) (buf : Bytes) : Bytes × Bytes × Int × Err :=\n  if buf.length = 0 then (r, buf, 0, Err.nil)\n  else if r.length = 0 then (r, buf, 0, Err.sentinel \"io.EOF\")\n  else if r.length < buf.length then ([], r ++ buf.drop r.length, len r, Err.sentinel \"io.ErrUnexpectedEOF\")\n  else (r.drop buf.length, r.take buf.length, len buf, Err.nil)\n\n")
 		}
-		b.WriteString(fb.String())
+		b.WriteString(bodies.String())
 		fmt.Fprintf(&b, "end GV.Gen.Imp.%s\n", tg.ns)
 		famInfos[tg.ns] = p.loopInfos
 		for _, fn := range tg.funcs {
 			if sig := p.grpTranslated[fn]; sig != nil && tg.grp != "" {
 				ty := "{G : Type} → (G → G → G) → (G → G) → (G → G) → G → G → G"
+				if tg.ext {
+					ty = "{G : Type} → {A : Type} → (G → G → G) → (G → G) → (G → G) → G → G → (A → G) → (G → G) → (Int → Int × Int) → Int → (Int → List Nat) → (List Nat → Int) → G"
+				}
 				for _, t := range sig.params {
 					ty += " → " + p.ltyA(t, false)
 				}
